@@ -66,7 +66,8 @@ def required_cells(tier):
               "skip:object", "skip:link", "skip:empty-command", "skip:empty-arguments", "skip:blank-command", "relative-I-missing-in-build-dir", "unnamed-file-unattributed",
               "gcc-confirmed", "class:grid", "class:random", "same-spelling-different-build-dirs", "forced-include:rel",
               "forced-include:abs", "forced-include:dots", "search-dir-with-blank:command", "search-dir-with-blank:arguments",
-              "header-compiled-on-its-own", "compiled-files-excluded-by-pattern"]
+              "header-compiled-on-its-own", "compiled-files-excluded-by-pattern", "skip:missing-long-name", "skip:missing-below-a-file",
+              "cli:logical-working-directory"]
     return cells
 
 
@@ -148,6 +149,10 @@ SKIPS = {
     "empty-arguments": lambda root: {"file": "src/a.c", "directory": root, "arguments": []},
     "blank-command": lambda root: {"file": "src/a.c", "directory": root, "command": " "},
     "tab-command": lambda root: {"file": "src/a.c", "directory": root, "command": "\t \n"},
+    # a generated file that does not exist (yet) and whose name is longer than a file name may be (stat fails with
+    # ENAMETOOLONG, not ENOENT), and one below a path component that is a regular file (ENOTDIR)
+    "missing-long-name": lambda root: {"file": "src/" + "g" * 300 + ".c", "directory": root, "arguments": ["gcc", "-c", "src/" + "g" * 300 + ".c"]},
+    "missing-below-a-file": lambda root: {"file": "src/a.c/gen.c", "directory": root, "arguments": ["gcc", "-c", "src/a.c/gen.c"]},
 }
 
 
@@ -231,7 +236,7 @@ def check_db(ctx, base, root, entries, metas, skips, cls):
                                      "istyle": m["istyle"], "expected": wi, "observed": oi})
                 if e["defines"] != m["defines"]:
                     problems.append({"kind": "defines", "expected": m["defines"], "observed": e["defines"]})
-        n_missing = sum(1 for k, _ in skips if k == "missing")
+        n_missing = sum(1 for k, _ in skips if k.startswith("missing"))
         warned = [w for w in ev.warnings() if "non-existent file" in w]
         if len(warned) != n_missing:
             problems.append({"kind": "missing-file-warning", "expected": n_missing, "observed": warned})
@@ -280,6 +285,64 @@ def check_db(ctx, base, root, entries, metas, skips, cls):
                      mechanism=classify(problems, metas), cells=cells, nontrivial=nontriv, cls=cls)
     else:
         acc.held(cells=cells, nontrivial=nontriv, cls=cls, sample={"entries": entries})
+
+
+def cli_logical_cwd(ctx, base):
+    """The command line tool started in a directory that is reached through a symbolic link, with $PWD holding the
+    logical spelling (as a shell exports it): `..` in a relative -I / file / directory climbs from the PHYSICAL
+    directory, as it does for a compiler started there.  gcc run in the same directory is the oracle."""
+    from cbimon import cli
+    acc = ctx.acc
+    t = os.path.join(base, "logical")
+    shutil.rmtree(t, ignore_errors=True)
+    proj = os.path.join(t, "real", "deep", "proj")
+    os.makedirs(os.path.join(proj, "src"))
+    os.makedirs(os.path.join(t, "real", "deep", "include"))          # what ../include is for a process in proj
+    os.makedirs(os.path.join(t, "include"))                          # what it would be after lexical normalisation of link/..
+    with open(os.path.join(t, "real", "deep", "include", "cfg.h"), "w") as f:
+        f.write("#define REAL_CFG 1\ncbi_m_real_2;\n")
+    with open(os.path.join(t, "include", "cfg.h"), "w") as f:
+        f.write("#define DECOY_CFG 1\ncbi_m_decoy_2;\n")
+    main = "#include <cfg.h>\n#ifdef REAL_CFG\ncbi_m_main_3;\n#endif\n#ifdef DECOY_CFG\ncbi_m_main_6;\n#endif\ncbi_m_main_8;\n"
+    with open(os.path.join(proj, "src", "main.c"), "w") as f:
+        f.write(main)
+    link = os.path.join(t, "link")
+    os.symlink(os.path.join("real", "deep", "proj"), link)
+    variants = [({"file": "src/main.c"}, ["-I../include"]), ({"file": "src/main.c", "directory": "."}, ["-I", "../include"]),
+                ({"file": "main.c", "directory": "src"}, ["-I../../include"]), ({"file": "../proj/src/main.c"}, ["-isystem", "../include"])]
+    for i, (entry, inc) in enumerate(variants):
+        e = dict(entry, arguments=["gcc"] + inc + ["-c", entry["file"]])
+        wd = os.path.normpath(os.path.join(proj, entry.get("directory", ".")))
+        rc_, out_, err_ = gcc.run(gcc.BASE + ["-P"] + inc + [entry["file"]], cwd=wd)
+        live = set(gcc.MARK.findall(out_))
+        if rc_ != 0 or err_.strip():
+            acc.oracle_disagreement({"entry": e, "gcc_stderr": err_[:200]})
+            continue
+        with open(os.path.join(proj, "db.json"), "w") as f:
+            json.dump([e], f)
+        with open(os.path.join(proj, "analysis.toml"), "w") as f:
+            f.write('[platform.p]\ncommands = "db.json"\n')
+        dump = os.path.join(t, "dump.json")
+        rc, out, err = cli.run("codebasin", ["-R", "summary", "analysis.toml"], link, launch={"dump": dump}, extra_env={"PWD": link})
+        acc.hook("cli-runs")
+        problems = []
+        if rc != 0:
+            problems.append({"kind": "cli failed", "stderr": err[-300:], "stdout": out[-300:]})
+        else:
+            d = json.load(open(dump))
+            used = set()
+            for fn, per in d["attribution"].items():
+                text = open(fn).read().split("\n")
+                for ln, ps in per.items():
+                    if ps and gcc.MARK.findall(text[int(ln) - 1]):
+                        used.add(gcc.MARK.findall(text[int(ln) - 1])[0])
+            if used != live:
+                problems.append({"kind": "attribution-vs-gcc from a symlinked working directory", "expected": sorted(live), "observed": sorted(used)})
+        cells = {"cli:logical-working-directory"}
+        if problems:
+            acc.violated({"input": {"entries": [e], "cwd": "link -> real/deep/proj", "PWD": "logical"}, "witness": {"entries": [e], "problems": problems}}, cells=cells, cls="cli")
+        else:
+            acc.held(cells=cells, cls="cli", nontrivial=e)
 
 
 def classify(problems, metas):
@@ -373,6 +436,8 @@ def run_shard(ctx):
             ctx.acc.violated({"input": {"entries": [entry]}, "witness": {"entries": [entry], "problems": [
                 {"kind": "relative -I must be interpreted in the entry's directory even if it does not exist there",
                  "expected": want, "observed": got}]}}, cells=["relative-I-missing-in-build-dir"], cls="grid")
+    if ctx.shard == 0:
+        cli_logical_cwd(ctx, base)
     # R: random multi-entry databases
     rng = ctx.rng("random")
     for i in range(bounds(ctx.tier)["random"]):
